@@ -23,6 +23,7 @@ func (v *FnVC) exec(fr *frame, st *State, ins ssa.Instruction) {
 	case *ssa.Alloc:
 		et := elemTypeOfAddr(x)
 		r := v.sc.Fresh("alloc."+x.Name(), SInt)
+		v.freshRefs[r.S] = true
 		v.sc.Assert(Lt(st.allocPtr, r))
 		v.sc.Assert(Lt(tZero, r))
 		st.allocPtr = r
